@@ -108,9 +108,46 @@ def stores_stage(c):
   c.sample({'store_sequence': seqs[2][:12], 'ram': models[2]['ram'][:12]})
 
 
+KEY_NONCANON = 'noncanonical-resource-name-parsed-by-ram-matched-raw-by-sql'
+
+
+def noncanonical_names_stage(c):
+  """Directed, real RAM vs real SQLite servicers: resource names the service never produces itself
+  (a zero-padded trial id, a string that is no resource name).  RAM parses names (int() on the id, ValueError on
+  a non-match), SQL matches the stored name string."""
+  from vizier._src.service import vizier_service, vizier_service_pb2 as vsp, study_pb2
+  outs = {}
+  calls = [('GetTrial', lambda sv: sv.GetTrial(vsp.GetTrialRequest(name='owners/o/studies/s/trials/01'))),
+           ('DeleteTrial', lambda sv: sv.DeleteTrial(vsp.DeleteTrialRequest(name='owners/o/studies/s/trials/01'))),
+           ('GetStudy', lambda sv: sv.GetStudy(vsp.GetStudyRequest(name='garbage'))),
+           ('ListTrials', lambda sv: len(sv.ListTrials(vsp.ListTrialsRequest(parent='owners/o/studies/s')).trials))]
+  for be, url in (('ram', None), ('sqlmem', 'sqlite:///:memory:')):
+    sv = vizier_service.VizierServicer(database_url=url)
+    sv.CreateStudy(vsp.CreateStudyRequest(parent='owners/o', study=study_pb2.Study(display_name='s', study_spec=svc.simple_study_spec())))
+    sv.CreateTrial(vsp.CreateTrialRequest(parent='owners/o/studies/s', trial=study_pb2.Trial()))
+    res = []
+    for name, f in calls:
+      try:
+        r = f(sv)
+        res.append([name, 'ok', r if isinstance(r, int) else None])
+      except Exception as e:  # pylint: disable=broad-except
+        res.append([name, 'NOT_FOUND' if isinstance(e, KeyError) else type(e).__name__, None])
+    outs[be] = res
+    c.traces += 1
+  c.count(1, ('noncanonical-names',), kind='directed:noncanonical-names')
+  for a, b in zip(outs['ram'], outs['sqlmem']):
+    if a != b:
+      c.prop_fail(KEY_NONCANON,
+                  '%s with a non-canonical resource name is answered %s on the RAM backend and %s on the SQL backend' % (a[0], a[1:], b[1:]),
+                  {'calls': ['CreateStudy o/s', 'CreateTrial', "GetTrial('owners/o/studies/s/trials/01')", "DeleteTrial('owners/o/studies/s/trials/01')",
+                             "GetStudy('garbage')", 'ListTrials'], 'ram': outs['ram'], 'sqlmem': outs['sqlmem']})
+      break
+
+
 def run(c):
   c.proof_stage()
   stores_stage(c)
+  noncanonical_names_stage(c)
   backends = ['ram', 'sqlmem', 'sqlfile']
   cfgs = svccheck.identify_flags(c, backends, report=('deleteCascadesOps', 'metadataAtomic'))
   n = 70 if c.tier == 'quick' else 800
